@@ -368,7 +368,7 @@ theorem mkExtraOK_plain (a : Generic.Atom) (hv : PlainValue a.value) (hx : a.x =
   simp only at hx hv; subst hx
   cases op with
   | eq =>
-    have := mkSingle_extra_bare v hv
+    have := mkSingle_extra_eq v hv.1 (fun h0 => (hv.2 '=' h0).2.2.2.2.2.2.2.2.2 rfl)
     simp only [mkSingleOfC, LeafC.toStr, GC.toStr, GS.toStr, Generic.Atom.toStr, bind, Except.bind]
     simp
     rw [this]; simp [sOfAtom, Generic.Op.str]
